@@ -288,7 +288,7 @@ def standard_check(pid, tier, *, family, base_module, consts, invariants, n_beh,
         with concurrent.futures.ThreadPoolExecutor(max_workers=len(sl)) as ex:
             futs = [ex.submit(explore, sc, base_module, x["consts"], invariants, tier, notes=v.notes, workers=w,
                               emit="EmitEdge" if x.get("graph") else "EmitBehaviour",
-                              tag="VF-EDGE" if x.get("graph") else "VF-BEH") for x in sl]
+                              tag="VF-EDGE" if x.get("graph") else "VF-BEH", properties=x.get("properties", ())) for x in sl]
             outs = [f.result() for f in futs]
         behs = []
         mc = dict(generated=0, distinct=0, violated=None)
